@@ -608,6 +608,12 @@ pub fn units(prop: &str, tier: Tier) -> Option<Vec<Unit>> {
                     .probes(CTX)
                     .alarm(alarm)
                     .unit(),
+                e1("ctx-providers-as-iterable-parsers", "a.ignore_with_ctx(item.repeated()..) / a.then_with_ctx(..) used as ITERABLE parsers: 4 providers x 5 items (just from ctx, any, alternatives, emitting) x 6 kinds (2 providers x unbounded / at_most from ctx / exactly from ctx) x 9 sinks (collect, count, unit parser, collect_exactly, foldl, foldr, foldl_with), each followed by a rest capture; plus nestings in an outer context".into(), en::ctx_iter_templates())
+                    .len(pick(5, 6))
+                    .cfg(CfgId::RichCx)
+                    .probes(CTX)
+                    .alarm(alarm)
+                    .unit(),
                 e1("ctx-families", "hand-built context-sensitive families: length-prefixed (nested, repeated, in choices), range from context, try_configure errors, delimiter-echo (nested providers), recursion under a context, indentation-like levels".into(), en::ctx_families())
                     .len(pick(6, 8))
                     .cfg(CfgId::RichCx)
